@@ -32,6 +32,8 @@ pub enum Mode {
     InProcess,
     /// the real binary, result on stdout, real RNG
     ChildStdout,
+    /// the real binary with rayon's pool size fixed (RAYON_NUM_THREADS), result on stdout
+    ChildThreads(usize),
     /// the real binary under I/O faults
     ChildFaults(InFault, OutFault),
     /// malformed argv tail (everything after the input file)
@@ -459,7 +461,40 @@ impl C06 {
                 c
             }
             "empty" => HCirc::new(n),
+            "t_heavier" => {
+                // T gates that neither merge nor cancel: each one behind its own Hadamard, with
+                // entangling gates in between (3 qubits, 5..9 T)
+                let n = 3;
+                let mut c = HCirc::new(n);
+                let nt = 5 + d.choose("hvt", 5);
+                for _ in 0..nt {
+                    let q = d.choose("hvq", n);
+                    c.gates.push(HGate { k: GK::H, qs: vec![q] });
+                    c.gates.push(HGate { k: *d.pick("hvk", &[GK::T, GK::Tdg, GK::T]), qs: vec![q] });
+                    if d.coin("hve", 2, 3) {
+                        let a = d.choose("hva", n);
+                        let mut b = d.choose("hvb", n - 1);
+                        if b >= a {
+                            b += 1;
+                        }
+                        c.gates.push(HGate { k: *d.pick("hv2", &[GK::CX, GK::CZ]), qs: vec![a, b] });
+                    }
+                    if d.coin("hvs", 1, 6) {
+                        c.gates.push(HGate { k: GK::S, qs: vec![d.choose("hvsq", n)] });
+                    }
+                }
+                for q in 0..n {
+                    if d.coin("hvh", 1, 2) {
+                        c.gates.push(HGate { k: GK::H, qs: vec![q] });
+                    }
+                }
+                c
+            }
             "t_heavy" => {
+                if d.coin("thshape", 1, 2) {
+                    return self.circuit_for(d, tier, "t_heavier");
+                }
+                let tmax = 6;
                 // Hadamard-sandwiched T gates that survive full_simp, so that the decomposer (and
                 // with -p the fork-join path) really runs: H layer, then T / CX / H mixed
                 let n = 2 + d.choose("thn", 2);
@@ -471,7 +506,7 @@ impl C06 {
                 let mut t = 0;
                 for _ in 0..len {
                     match d.choose("thk", 6) {
-                        0 | 1 if t < 6 => {
+                        0 | 1 if t < tmax => {
                             t += 1;
                             let k = *d.pick("tht", &[GK::T, GK::Tdg]);
                             c.gates.push(HGate { k, qs: vec![d.choose("thq", n)] });
@@ -530,6 +565,7 @@ impl Property for C06 {
             SubBatch { name: "t_heavy", quick: 2_500, thorough: 60_000 },
             SubBatch { name: "malformed", quick: 3_000, thorough: 20_000 },
             SubBatch { name: "child", quick: 400, thorough: 4_000 },
+            SubBatch { name: "child_threads", quick: 600, thorough: 12_000 },
             SubBatch { name: "faults", quick: 800, thorough: 8_000 },
             SubBatch { name: "stats", quick: 48, thorough: 600 },
         ]
@@ -550,6 +586,7 @@ impl Property for C06 {
     fn generate(&self, d: &mut Decider, tier: Tier, sub: &str) -> Sc {
         let family = match sub {
             "malformed" | "child" | "faults" | "stats" => "clifford_t",
+            "child_threads" => "t_heavier",
             s => s,
         };
         let mut circ = self.circuit_for(d, tier, family);
@@ -567,6 +604,16 @@ impl Property for C06 {
         let (query, mode) = match sub {
             "malformed" => (Query::DefaultTask, Mode::Malformed(malformed_tail(d, n))),
             "child" => (gen_query(d, n, 4), Mode::ChildStdout),
+            "child_threads" => {
+                // deterministic queries only (the real RNG is not under control in a child)
+                let q = loop {
+                    let q = gen_query(d, n, 1);
+                    if matches!(q, Query::Amp(_) | Query::Exp(_)) {
+                        break q;
+                    }
+                };
+                (q, Mode::ChildThreads(1 + d.choose("threads", 16)))
+            }
             "faults" => {
                 let q = gen_query(d, n, 4);
                 let ng = circ.gates.len();
@@ -597,6 +644,7 @@ impl Property for C06 {
             "stats" => (Query::Shots(if tier == Tier::Thorough { 2000 } else { 400 }), Mode::InProcess),
             _ => (gen_query(d, n, 16), Mode::InProcess),
         };
+        let parallel = if sub == "child_threads" { Some(d.choose("pdepth", 4)) } else { parallel };
         Sc { circ, query, method, parallel, mode }
     }
 
@@ -752,8 +800,15 @@ impl Property for C06 {
                 }
                 out.nontrivial = true;
             }
-            Mode::ChildStdout => {
+            Mode::ChildStdout | Mode::ChildThreads(_) => {
                 out.engine = "child_process";
+                let threads = match &sc.mode {
+                    Mode::ChildThreads(t) => {
+                        out.probe(&format!("child_pool_size.{}", if *t <= 4 { t.to_string() } else if *t <= 8 { "5-8".into() } else { "9-16".into() }));
+                        Some(*t)
+                    }
+                    _ => None,
+                };
                 let bin = match &env.quizx_bin {
                     Some(b) => b.clone(),
                     None => panic!("QSIM_QUIZX_BIN not set"),
@@ -762,9 +817,12 @@ impl Property for C06 {
                 let mut tail: Vec<String> = vec!["sim".into(), input.to_string_lossy().to_string()];
                 tail.extend(argv_tail(sc));
                 tail.extend(method_args(sc.method, sc.parallel));
-                let res = cli::run_child_stdout(&bin, &tail);
+                let res = cli::run_child_stdout_threads(&bin, &tail, threads);
                 out.steps += 1;
-                let how = format!("quizx {} (child, stdout)", tail[2..].join(" "));
+                let how = match threads {
+                    Some(t) => format!("RAYON_NUM_THREADS={} quizx {} (child, stdout)", t, tail[2..].join(" ")),
+                    None => format!("quizx {} (child, stdout)", tail[2..].join(" ")),
+                };
                 let mut j = Judge { sc, batch: sub, t: &t, out: &mut out };
                 match res {
                     CliResult::Ok(Some(text)) => {
